@@ -68,11 +68,12 @@ def ref_digits(n, base, places):
 
 def ref_value(s, base):
     """digit string -> integer or NUM (hex digits in either case)."""
-    if base == 16:
-        s = s.upper()
     if len(s) > 10 or len(s) == 0:
         return NUM
-    if any(ch not in DIGITS[base] for ch in s):
+    # character by character (upper-casing the whole string would turn the
+    # ligature "ff" into two hex digits): a digit is one of 0-9, A-F, a-f
+    if any(ch not in DIGITS[base] and not (
+            base == 16 and ch in 'abcdef') for ch in s):
         return NUM
     v = int(s, base)
     if v >= base ** 10 // 2:
@@ -321,7 +322,10 @@ def run(ctx):
 
     # ---- invalid inputs: every character class at every position ----------
     if sh == 0 or thorough:
-        bad_chars = {'BIN': '2 9A.-+', 'OCT': '8 9A.-+', 'HEX': 'G Z.-+g'}
+        bad_chars = {'BIN': '2 9A.-+\u00b2\u2460', 'OCT': '8 9A.-+\u00b2\u2460',
+                     # ... and letters whose UPPER-case form would be hex digits
+                     # (the ligature ff), or that merely look like one
+                     'HEX': 'G Z.-+g\ufb00\u0131\u00b2\u2460\u00df'}
         for src in ('BIN', 'OCT', 'HEX'):
             good = {'BIN': '1011', 'OCT': '1735', 'HEX': '1A9F'}[src]
             for pos in range(len(good) + 1):
